@@ -508,6 +508,14 @@ fn finish(d: &Driver, case: &Case, b: usize, w: World, obs: Obs, m: Matched, con
     stats.continuations += 1;
     let mut cd = Driver::adopt(w, model, case.probe_seed ^ b as u64);
     cd.light = true;
+    // keep going after a divergence (it is recorded): the position monitor needs the calls that follow
+    cd.lenient = true;
+    // positions handed out before the crash keep counting for the queues that survived
+    for (name, h) in &hw {
+        if let Some(mq) = cd.model.queues.get(name) {
+            cd.hw.insert((name.clone(), mq.incarnation), *h);
+        }
+    }
     let ops: Vec<Op> = match cont {
         Cont::Explicit(ops) => ops.to_vec(),
         Cont::Generate(seed) => gen_continuation(&mut cd, seed, &hw, &mut out.failures, b, where_),
@@ -588,6 +596,13 @@ fn gen_continuation(cd: &mut Driver, seed: u64, hw: &BTreeMap<String, u64>, fail
         }
     }
     run(cd, Op::Restart { policy: None }, &mut ops, failures);
+    // and use every queue once more: a position lost by that restart would be handed out again here
+    let existing: Vec<usize> = (0..nq).filter(|&q| cd.model.queues.contains_key(&cd.names[q])).collect();
+    uid = (g.next_uid << 1) + 300;
+    for &q in &existing {
+        uid += 2;
+        run(cd, Op::Append { q, pos: None, lens: vec![rng.below(50) as u32], uid }, &mut ops, failures);
+    }
     ops
 }
 
